@@ -342,9 +342,9 @@ func (t *TrakBox) SetWvttDescriptor(config string) error {
 		config = "WEBVTT"
 	}
 	vttC := VttCBox{Config: config}
-	wvtt := WvttBox{}
+	wvtt := NewWvttBox() // data reference index 1
 	wvtt.AddChild(&vttC)
-	t.Mdia.Minf.Stbl.Stsd.AddChild(&wvtt)
+	t.Mdia.Minf.Stbl.Stsd.AddChild(wvtt)
 	return nil
 }
 
